@@ -23,7 +23,7 @@ from harness import lib_c09recv as R
 
 PID = 'C09'
 TITLE = 'Sharding partitions a data source exactly'
-LEAN_MODULES = ['MlModel.Properties.C09', 'MlModel.Witness.C09']
+LEAN_MODULES = ['MlModel.Properties.C09', 'MlModel.Witness.C09Recv']
 TRUSTED = [
     'modelled, not verified: bisect.bisect_right, itertools.accumulate/chain, slice.indices, collections.deque, '
     'divmod on Python ints, list/range slicing of the underlying sequences (their list semantics are written out '
